@@ -1,6 +1,102 @@
+"""C17: the standard pipeline (lib/verif.py standard_check) plus two observations of the locking of
+PeerPool (extra_checks below): the lock-discipline table read off the source by tools/lockscan, and, in
+the thorough tier, stream `race` run once more under Go's race detector.  Both are validation, not proof."""
+import json, os, sys
+sys.path.insert(0, os.path.join(os.path.dirname(os.path.dirname(os.path.abspath(__file__))), "lib"))
+import verif
+
+# What tools/lockscan must read off pkg/pool/peer.go: per method of PeerPool the mutex calls and the
+# accesses to the fields they guard, in source order (p.mu: peers, peerNodes; p.healthMu: peerHealthMap and
+# the peerHealth records).  Every method that touches the peer list or the health map takes the mutex
+# before its first access and keeps it for the whole check-then-act sequence (defer); the two snapshot
+# readers copy under the read lock.  `Stats` reads len(p.peerNodes) without p.mu (a statistic, outside
+# the property; listed so that it is not forgotten).  A change of this table is reported as a broken
+# obligation: somebody has to look at the new locking and re-state it here.
+EXPECTED_LOCKS = {
+    "methods": {
+        "AddPeer": "mu.Lock defer:mu.Unlock r:peerNodes w:peerNodes r:peerNodes",
+        "RemovePeer": "mu.Lock defer:mu.Unlock r:peerNodes w:peerNodes r:peerNodes",
+        "GetOwner": "mu.RLock defer:mu.RUnlock r:peerNodes",
+        "getPeerAddr": "mu.RLock defer:mu.RUnlock r:peers",
+        "getHealthyOwner": "mu.RLock r:peerNodes mu.RUnlock healthMu.RLock defer:healthMu.RUnlock r:peerHealthMap r:healthy",
+        "healthCheckLoop": "mu.RLock r:peerNodes mu.RUnlock",
+        "IsPeerHealthy": "healthMu.RLock defer:healthMu.RUnlock r:peerHealthMap r:healthy",
+        "checkPeer": "healthMu.Lock defer:healthMu.Unlock r:peerHealthMap w:peerHealthMap r:healthy r:consecutiveFailures "
+                     "w:consecutiveFailures w:healthy w:consecutiveFailures r:healthy r:consecutiveFailures w:healthy r:consecutiveFailures",
+        "Stats": "r:peerNodes",
+    },
+    "unguarded": ["Stats r:peerNodes"],
+    "reacquired": [],
+}
+
+
+def lock_discipline(ctx):
+    """Compare the lock table of the working tree with EXPECTED_LOCKS; the table goes into the evidence notes."""
+    bindir = os.path.join(ctx.work, "bin")
+    os.makedirs(bindir, exist_ok=True)
+    tool = os.path.join(bindir, "lockscan")
+    src = os.path.join(verif.VERIF, "tools", "lockscan")
+    rc, log = verif.sh(["go", "build", "-o", tool, "."], cwd=src, timeout=600)
+    if rc != 0:
+        ctx.log("[locks] tools/lockscan does not build:\n" + log[-1500:])
+        return ["corr:lock-discipline (tools/lockscan does not build)"], []
+    rc, out = verif.sh([tool, "-file", os.path.join(ctx.repo, "pkg/pool/peer.go"), "-type", "PeerPool", "-mutexes", "mu,healthMu",
+                        "-guard", "mu=peers,peerNodes", "-guard", "healthMu=peerHealthMap,healthy,consecutiveFailures"])
+    try:
+        got = json.loads(out) if rc == 0 else None
+    except ValueError:
+        got = None
+    if got is None:
+        ctx.log("[locks] lockscan failed:\n" + out[-1500:])
+        return ["corr:lock-discipline (lockscan failed on pkg/pool/peer.go)"], []
+    json.dump(got, open(os.path.join(ctx.work, "locks.json"), "w"), indent=1)
+    diff = []
+    for m in sorted(set(got["methods"]) | set(EXPECTED_LOCKS["methods"])):
+        g, e = got["methods"].get(m), EXPECTED_LOCKS["methods"].get(m)
+        if g != e:
+            diff.append("%s: expected [%s], found [%s]" % (m, e, g))
+    for k in ("unguarded", "reacquired"):
+        if sorted(got[k]) != sorted(EXPECTED_LOCKS[k]):
+            diff.append("%s: expected %s, found %s" % (k, EXPECTED_LOCKS[k], got[k]))
+    notes = ["lock discipline of PeerPool (tools/lockscan, linear source-order scan; validation, not proof): %d methods as expected; "
+             "unguarded accesses: %s; mutex taken twice in one method: %s" % (len(got["methods"]) - len(diff), got["unguarded"], got["reacquired"])]
+    if diff:
+        for d in diff:
+            ctx.log("[locks] " + d)
+        return ["corr:lock-discipline pool.PeerPool (" + "; ".join(diff)[:600] + ")"], notes
+    return [], notes
+
+
+def race_detector(ctx):
+    """Thorough tier: stream `race` once more with a driver built by `go build -race`."""
+    if ctx.tier != "thorough" or ctx.replay:
+        return [], []
+    moddir = os.path.join(ctx.work, "gomod")
+    os.makedirs(moddir, exist_ok=True)
+    open(os.path.join(moddir, "go.mod"), "w").write(open(os.path.join(verif.HARNESS, "go.mod")).read().replace("=> /repo", "=> " + ctx.repo))
+    verif.shutil.copy(os.path.join(ctx.repo, "go.sum"), os.path.join(moddir, "go.sum"))
+    binp = os.path.join(ctx.work, "bin", "c17-race")
+    os.makedirs(os.path.dirname(binp), exist_ok=True)
+    rc, log = verif.sh(["go", "build", "-race", "-modfile=" + os.path.join(moddir, "go.mod"), "-tags", "verif", "-o", binp, "./c17"],
+                       cwd=verif.HARNESS, timeout=2400)
+    if rc != 0:
+        return [], ["race detector: the -race build of the driver failed (%s); stream not run under the detector" % log[-200:].strip()]
+    outdir = os.path.join(ctx.work, "racedet")
+    verif.shutil.rmtree(outdir, ignore_errors=True)
+    rc, out = verif.sh([binp, "-seed", str(ctx.seed + 1), "-tier", "quick", "-out", outdir, "-only", "race"], cwd=ctx.work,
+                       timeout=2400, env={"GORACE": "halt_on_error=0"})
+    n = out.count("WARNING: DATA RACE")
+    sites = sorted(set(l.strip().split(" ")[0] for l in out.splitlines() if "/pkg/pool/" in l))
+    if n or rc != 0:
+        ctx.log("[race] %d report(s) (exit %d):\n%s" % (n, rc, out[:3000]))
+        return ["corr:race-detector pool.PeerPool (%d data race report(s) on stream race: %s)" % (n, ", ".join(sites)[:400])], []
+    return [], ["race detector: stream race (6 cases x 100 rounds x 8 callers) under `go build -race`: 0 reports"]
+
+
 SPEC = {
     "props": "Props/C17.v",
-    "check_vo": ["Model/RendezvousCheck.vo"],
+    "check_vo": ["Model/RendezvousCheck.vo", "Model/RendezvousRace.vo"],
+    "extra_checks": [lock_discipline, race_detector],
     "driver": "c17",
     "component": "pool.PeerPool(rendezvous)",
     "clauses": {0: "agreement: same (peer set, key) => same owner at every node",
@@ -12,19 +108,20 @@ SPEC = {
                 6: "release: after a successful Release (same proviso) no pool holds the subscriber",
                 7: "persistence: between a successful Allocate and the next Release request for that id some pool holds it (a request for another id never frees it)",
                 8: "identity: the response to an Allocate names the subscriber id that was asked for"},
-    "rule": "a case = 1..24 real PeerPool nodes and an op sequence executed on them and on the Model (AddPeer/RemovePeer/health marks/real checkPeer with a scripted transport/GetOwner/IsLocalOwner/ranked/healthy owner/Allocate/Release/Get through the in-process peer HTTP handlers/LocalPool contents of every node); streams: corpus, cases (random histories, arbitrary byte-string names), perm (EXHAUSTIVE: every permutation of the configured order and every AddPeer order of each listed peer set of size <=5), health (EXHAUSTIVE: every health vector of each listed peer set of size <=5, Gray-code walks), hcheck (EXHAUSTIVE: every ok/fail check sequence up to length 6/8), pool (end to end with URL-hostile subscriber ids); distinct = distinct case terms",
+    "rule": "a case = 1..24 real PeerPool nodes and an op sequence executed on them and on the Model (AddPeer/RemovePeer/health marks/real checkPeer with a scripted transport/GetOwner/IsLocalOwner/ranked/healthy owner/Allocate/Release/Get through the in-process peer HTTP handlers/LocalPool contents of every node); streams: corpus, cases (random histories, arbitrary byte-string names), perm (EXHAUSTIVE: every permutation of the configured order and every AddPeer order of each listed peer set of size <=5), health (EXHAUSTIVE: every health vector of each listed peer set of size <=5, Gray-code walks), hcheck (EXHAUSTIVE: every ok/fail check sequence up to length 6/8), pool (end to end with URL-hostile subscriber ids), race (CONCURRENT: barrier-released rounds of 8 callers on one PeerPool - AddPeer/RemovePeer/health marks/owner, ranked and healthy-owner queries - every answer and the peer list / health view after each round judged inside Coq for linearizability against the Model; sampled schedules); distinct = distinct case terms",
     "assumptions": [
         "sort.Slice in rendezvousRanked is a stable insertion sort below 12 elements (Go's pdqsort) and the Model is the same stable sort; above 12 peers they can differ on a 64-bit score tie between two peer names (not exhibited)",
         "guards of C17_monitor_accepts_model_partial and of the _partial theorems: positive, pairwise distinct 64-bit scores for the keys asked (clauses 1-3 only); no X / X:8081 name pair (K17b); no node marks or health-checks itself (K17a); no node removes itself. What the code returns when a score row is all zero is stated exactly (C17_owner_all_scores_zero, C17_owner_member_iff); whether such a row exists for FNV-1a/Wang is not decided",
         "peer names used as URL hosts: the Model is exact for letters, digits, '.', '-' and an optional numeric port; other names are only used where no request is sent. Allocate carries the id in a JSON body: encoding/json's replacement of invalid UTF-8 by U+FFFD is modelled (utf8_coerce, tied by the pool stream; K17d); NewPeerPool is assumed to be given a Peers slice with cap = len (slice aliasing of p.peers and p.peerNodes is modelled under that assumption)",
+        "concurrent callers: the Model is sequential; stream race samples schedules of concurrent membership / health / query calls on one node and requires every round to be explained by some sequential order (validation, not proof); the lock table of PeerPool read off the source by tools/lockscan is compared with the expected table in checks/C17.py (a linear go/ast scan: an observation, not a proof of race freedom); the thorough tier runs stream race under Go's race detector. Concurrent checkPeer / Allocate / Release calls are not sampled",
         "real TCP, client timeouts, the health-check ticker and LocalPool capacity/address choice are outside this Model (LocalPool is covered under C01/C05); checkPeer itself runs for real against a scripted http.RoundTripper",
     ],
     "modelled": ["pkg/pool/peer.go: NewPeerPool peer-list normalisation, AddPeer, RemovePeer, GetOwner, IsLocalOwner, rendezvousHash, rendezvousRanked, hashString, hashCombine, getHealthyOwner, getPeerAddr, Allocate/forwardAllocation/handleAllocate, Release/forwardRelease/handleRelease (incl. the mux's path cleaning for '.'/'..'), Get, checkPeer bookkeeping (threshold 3), LocalPool membership (who holds which subscriber)"],
 }
 
 MANIFEST = {
-    "text": "Ownership is a pure function of (peer multiset, subscriber id): the Model of pkg/pool/peer.go (FNV-1a + Wang mixer with explicit 2^64 wrap, sort.Strings, strict first-max fold from (\"\",0), stable ranked sort, health fallback, checkPeer's 3-failure bookkeeping, address lookup, Allocate/Release/Get through the peer handlers with a per-node holder set) carries theorems for every peer list, every order and every id: order-invariance of the node list and owner, AddPeer order-invariance, ranked list is a permutation starting with the owner, removal/unhealthy minimality, agreement of all healthy nodes; the zero-score edge is characterised exactly over an abstract score function; a peer is unhealthy exactly after >=3 consecutive failed checks and healthy after one success; and a refinement theorem: the 9-clause trace monitor (agreement, membership, ranked, removal-minimality, health, one pool per subscriber, release, persistence, response names the requested id) never rejects a run of the Model inside a decidable guard. Full agreement under health is refuted by a vm_compute witness replayed on the real code (K17a); K17b (address conflation) is recorded; K17c (raw subscriber id in the release URL) was found by the end-to-end stream and fixed; K17d (non-UTF-8 ids are rewritten by the JSON body of a forwarded Allocate) is recorded. The Model and monitor are evaluated inside Coq on traces recorded from real PeerPool objects on every run, including exhaustive permutation / health-vector / check-sequence streams.",
-    "note": "Theorems are about the hand-written Model; the tie to pkg/pool/peer.go is the differential run (sampled + the exhaustive small-scope streams). Guards: non-zero and pairwise-distinct 64-bit scores (clauses 1-3), no X/X:8081 pair, no node marking/removing itself. Real TCP, timeouts, ticker timing, sort.Slice instability on score ties above 12 peers are outside the Model.",
+    "text": "Ownership is a pure function of (peer multiset, subscriber id): the Model of pkg/pool/peer.go (FNV-1a + Wang mixer with explicit 2^64 wrap, sort.Strings, strict first-max fold from (\"\",0), stable ranked sort, health fallback, checkPeer's 3-failure bookkeeping, address lookup, Allocate/Release/Get through the peer handlers with a per-node holder set) carries theorems for every peer list, every order and every id: order-invariance of the node list and owner, AddPeer order-invariance, ranked list is a permutation starting with the owner, removal/unhealthy minimality, agreement of all healthy nodes; the zero-score edge is characterised exactly over an abstract score function; a peer is unhealthy exactly after >=3 consecutive failed checks and healthy after one success; every node's peer list stays a sorted duplicate-free set over every history (so the ranked list names no peer twice), IsLocalOwner = (GetOwner = own id) in every state; and a refinement theorem: the 9-clause trace monitor (agreement, membership, ranked, removal-minimality, health, one pool per subscriber, release, persistence, response names the requested id) never rejects a run of the Model inside a decidable guard. Full agreement under health is refuted by a vm_compute witness replayed on the real code (K17a); K17b (address conflation) is recorded; K17c (raw subscriber id in the release URL) was found by the end-to-end stream and fixed; K17d (non-UTF-8 ids are rewritten by the JSON body of a forwarded Allocate) is recorded; K17e (getHealthyOwner ranked the shared backing array of the peer list after dropping the lock, so a request routed during a concurrent AddPeer/RemovePeer could miss an untouched peer) was found by the concurrent stream and fixed. Concurrent AddPeer / RemovePeer / health / query calls on one node are sampled in barrier-released rounds and judged inside Coq for linearizability against the Model (the judge provably accepts every sequential round). The Model and monitor are evaluated inside Coq on traces recorded from real PeerPool objects on every run, including exhaustive permutation / health-vector / check-sequence streams.",
+    "note": "Theorems are about the hand-written Model; the tie to pkg/pool/peer.go is the differential run (sampled + the exhaustive small-scope streams). Guards: non-zero and pairwise-distinct 64-bit scores (clauses 1-3), no X/X:8081 pair, no node marking/removing itself. Real TCP, timeouts, ticker timing, sort.Slice instability on score ties above 12 peers are outside the Model. Concurrency is validated (sampled schedules, lock table, race detector in the thorough tier), not proved.",
     "technique": "Rocq proof (induction over lists / sorted-permutation uniqueness / arg-max fold lemmas / simulation invariant between Model state and monitor state) + differential correspondence with vm_compute evaluation of the Model and a trace monitor",
     "design_ref": "DESIGN.md §8 C17, docs/C17.md",
 }
